@@ -814,6 +814,7 @@ func init() {
 		return htmlEscapeModel(ec, scalar(args[0]))
 	}
 	specModels["html.EscapeString"] = func(ec *evalCtx, a []Value) Value { return htmlEscapeModel(ec, scalar(a[0])) }
+	specModels["html.UnescapeString"] = func(ec *evalCtx, a []Value) Value { return App("html.UnescapeString", SStr, scalar(a[0])) }
 	stdModels["errors.Join"] = func(ec *evalCtx, call *ast.CallExpr, recv Value, args []Value) Value {
 		// nil iff every argument is nil; deterministic in its argument for literal lists
 		if s, ok := args[0].(*SliceV); ok && s.Len.IsInt() {
